@@ -41,7 +41,7 @@ func init() {
 
 type c09Inst interface {
 	Feed(p []byte) (out []byte, err error, meta string)
-	Meta() string // the receiver's metadata as it reads now
+	Meta() string        // the receiver's metadata as it reads now
 	Keep() func() string // what an application keeps of the last decode (a copy of the struct, the object Packet() returned): rendered again later
 	Head(p []byte) bool
 	Tail(m bool, p []byte) bool
@@ -731,6 +731,32 @@ func c09Seq(c *fw.Ctx, i int) {
 		if !s.feed(c, p, r) {
 			return
 		}
+	}
+	if kind.codec == "av1" && i%400 < len(c09Kinds) {
+		// an OBU whose own size field announces S bytes, spread over continuation packets that deliver fewer or more than S
+		S := r.Pick(16384, 20000, 65536, 100000)
+		deliver := S + r.Pick(-1, 1, 2, 100, 40000, -40000, -S+10)
+		if deliver < 1 {
+			deliver = 1
+		}
+		first := append([]byte{0x50, 0x32}, gen.LEB(uint64(S))...) // Y=1, W=1; OBU_FRAME with has_size_field
+		first = append(first, r.Bytes(minI(deliver, 3000))...)
+		sent := minI(deliver, 3000)
+		if !s.feed(c, first, r) {
+			return
+		}
+		for sent < deliver {
+			nb := minI(deliver-sent, r.Pick(1200, 30000, 60000))
+			h := byte(0x90) // Z=1, W=1
+			if sent+nb < deliver {
+				h |= 0x40
+			}
+			sent += nb
+			if !s.feed(c, append([]byte{h}, r.Bytes(nb)...), r) {
+				return
+			}
+		}
+		c.Count("obus_delivering_other_than_their_announced_size", 1)
 	}
 	if (kind.codec == "av1" || kind.codec == "h264") && i%8000 < len(c09Kinds) {
 		// one unit reassembled from many large fragments: its total passes 2^21 bytes, where the size written in front of the
